@@ -148,6 +148,11 @@ const FILE_F: &str = "r1\nr2\n{r3\nr4}\nr5\n";
 /// Lexes a line-final backslash from source text while \endlinechar=-1: the empty-name control sequence.
 const OBSERVE_EMPTY_NAME: [&str; 3] = ["{\\endlinechar=-1 ", ";\\", "}"];
 
+/// LAST observer line (after every drain, so its global effects disturb nothing): \\global in front of EVERY prefixable
+/// command kind and \\long / \\outer \\def, executed after the checkpoint – behaviour that depends on state which is
+/// serde(skip) and rebuilt on load (prefix tags, conditional tags, \\jobname) – then the results are read.
+const OBSERVE_PREFIXES: &str = "{\\global\\let\\gl=\\hh \\global\\advance\\count6 by 3 \\global\\multiply\\count6 by 2 \\global\\divide\\count6 by 1 \\global\\countdef\\gc=6 \\global\\toksdef\\gt=6 \\global\\chardef\\gh=71 \\global\\mathchardef\\gm=5 \\global\\count7=7 \\global\\fa \\global\\def\\gd{d}\\gdef\\ge{e}\\long\\def\\gp#1{#1}\\outer\\def\\go{o}\\long\\outer\\global\\def\\gq{q}\\gp p\\go};\\gl;\\the\\count6 ;\\the\\gc;\\the\\gt;\\gh;\\the\\gm;\\the\\count7 ;\\probefont;\\gd;\\ge;\\gq;\\jobname;\\ifnum 1<2 t\\else f\\fi;\\ifodd 3 t\\fi;";
+
 fn observer(open_conds: i32, open_groups: i32) -> Vec<String> {
     let mut lines = vec![OBSERVE.to_string()];
     lines.extend(OBSERVE_EMPTY_NAME.iter().map(|s| s.to_string()));
@@ -157,6 +162,7 @@ fn observer(open_conds: i32, open_groups: i32) -> Vec<String> {
     for _ in 0..open_groups {
         lines.push(format!("}}{OBSERVE}"));
     }
+    lines.push(OBSERVE_PREFIXES.to_string());
     lines
 }
 
@@ -474,6 +480,9 @@ const REEXEC: usize = 5;
 
 fn run_case(idx: u64, c: &Case, nontrivial_boundaries: u64, acc: &mut Acc) {
     acc.eval();
+    if c.q.last().map(|l| l.as_str()) == Some(OBSERVE_PREFIXES) {
+        acc.count("global_prefix_on_each_prefixable_command_kind_after_checkpoint");
+    }
     if nontrivial_boundaries > 0 {
         acc.nontrivial();
     }
@@ -1146,6 +1155,7 @@ fn main() {
     }
 
     for (c, m) in [
+        ("global_prefix_on_each_prefixable_command_kind_after_checkpoint", "after the checkpoint the observer runs \\global\\let, \\global\\advance/\\multiply/\\divide, \\global\\countdef/\\toksdef/\\chardef/\\mathchardef, \\global on a register and a font selector, \\global\\def, \\gdef, \\long/\\outer\\def"),
         ("error_after_checkpoint_located_at_token_lexed_before_it", "the continuation raises an error whose token (or a token of its stack trace) was lexed before the checkpoint; the full rendered error is compared"),
         ("catcode_set_to_the_type_default_where_initial_table_differs", "an ASCII character whose initial category code is not 12 is set to 12 (the type's default) before the checkpoint"),
         ("int_parameter_holds_out_of_range_disabled_value", "an integer parameter holds a value outside the range in which it has an effect (e.g. \\endlinechar=300 or -7) at the checkpoint"),
